@@ -165,16 +165,19 @@ theorem C31_fact_containsArgs : Thanos.Facts.dedupContainsArgs = "parentSources,
 theorem C31_fact_containsSig : Thanos.Facts.dedupContainsSig = "s1, s2" := by decide
 theorem C31_fact_containsLoops :
     Thanos.Facts.dedupContainsLoops = "outer range s2; inner range s1" := by decide
-/-- the comparator: ULID ascending when the source counts are equal, else more sources first -/
+/-- the comparator: equal source counts ⇒ higher level first, then ULID ascending; else more sources first -/
 theorem C31_fact_sortLess : Thanos.Facts.dedupSortLess =
-    ["metaSlice[i].ULID.Compare(metaSlice[j].ULID) < 0", "ilen-jlen > 0", "if ilen == jlen"] := by decide
+    ["ilvl > jlvl", "metaSlice[i].ULID.Compare(metaSlice[j].ULID) < 0", "ilen-jlen > 0", "if ilen == jlen"] := by decide
+/-- … and inside the equal-count branch the level decides before the ULID -/
+theorem C31_fact_sortLevel : Thanos.Facts.dedupSortLevelCond = "ilvl != jlvl" := by decide
 
 -- non-vacuity: a chain 1 ⊂ 2 ⊂ 3 in one group plus an equal-sources pair in another
 def exMetas : List Meta :=
-  [⟨3, 0, [10, 11, 12, 13]⟩, ⟨1, 0, [10, 11]⟩, ⟨2, 0, [12, 13]⟩, ⟨4, 1, [10, 11]⟩, ⟨5, 1, [11, 10]⟩, ⟨6, 0, [13, 14]⟩]
+  [⟨3, 0, 2, [10, 11, 12, 13]⟩, ⟨1, 0, 1, [10, 11]⟩, ⟨2, 0, 1, [12, 13]⟩, ⟨4, 1, 1, [10, 11]⟩, ⟨5, 1, 1, [11, 10]⟩,
+   ⟨6, 0, 1, [13, 14]⟩, ⟨7, 2, 1, [20]⟩, ⟨8, 2, 2, [20]⟩]
 
 example : DistinctIds exMetas := by unfold DistinctIds; decide
-example : dups exMetas = [1, 2, 5] := by decide
-example : (kept exMetas).map (·.id) = [3, 4, 6] := by decide
+example : dups exMetas = [1, 2, 5, 7] := by decide   -- 8 (level 2) hides its parent 7 although 7 < 8
+example : (kept exMetas).map (·.id) = [3, 4, 6, 8] := by decide
 
 end Thanos.DedupFilter
